@@ -1,5 +1,6 @@
 """C05 — arithmetic identities. Spec: MBF.tla (decode, exact order, Neg/Abs/Sign, Wider); oracle self-check MBF_MC;
 trace spec C05_Trace."""
+import os
 import time
 from ..mbfdrv import (Drv, Pipeline, Sink, typ, int_bytes, flt_of_int, neighbour, negated, rand_float, rand_value, rand_int, CVFN, SIZE)
 
@@ -26,6 +27,10 @@ def run(ctx):
                        'distinct (identity, operand types and bytes, route) tuples; non-trivial = all')
     quick = ctx.quick()
     rng = ctx.rng
+    # development knob only (smoke-testing the thorough code paths quickly); evidence records it when used
+    scale = float(os.environ.get('VF_MBF_SCALE', '1'))
+    if scale != 1:
+        ctx.cov['volume_scale'] = scale
     ctx.model_check('MBF_MC', 'MBF_MC_quick.cfg' if quick else 'MBF_MC.cfg', require_actions=False, workers=4)
     t0 = time.time()
     d = Drv()
@@ -116,7 +121,7 @@ def run(ctx):
             ident_binary(x, [rng.choice('isd')] if quick else ['i', 's', 'd'], text)
 
     # ---- float operands ----------------------------------------------------------
-    nflt = ctx.pick(7000, 150000)
+    nflt = max(10, int(ctx.pick(7000, 150000) * scale))
     for t in ('s', 'd'):
         for i in range(nflt):
             x = rand_float(rng, t)
@@ -167,7 +172,7 @@ def run(ctx):
             y = negated(y)
         return x, y
 
-    ncomm = ctx.pick(5000, 100000)
+    ncomm = max(10, int(ctx.pick(5000, 100000) * scale))
     for tx in 'isd':
         for ty in 'isd':
             for _ in range(ncomm):
